@@ -268,9 +268,12 @@ def check_case(case):
         S = oracle.amp_spectrum(sig, spec["width"], nfft)
         Ssm, _ = oracle.ref_smooth(spec["op"], fgrid, S, fcs, spec["bw"])
         dyn = float(S.max()) / np.maximum(np.abs(Ssm[0]), 1e-300)
+        # Savitzky-Golay has negative weights: where the smoothed spectrum of s itself is <= 0 the order of the azimuths
+        # reverses (maximum / percentile of negative numbers) and the closed form does not apply
+        keep_cf = keep & (Ssm[0] > 0)
         for g, e in zip(pres, expect):
-            if not close(g[:, keep], e, rtol=1e-9, atol=(1e-12 + 1e-13 * dyn[keep]) * href):
-                raise Violation(f"{m}: proportional components A={P['A']}, B={P['B']}, C={P['C']} give {g[0, keep][:3].tolist()}..., "
+            if not close(g[:, keep_cf], e, rtol=1e-9, atol=(1e-12 + 1e-13 * dyn[keep_cf]) * href):
+                raise Violation(f"{m}: proportional components A={P['A']}, B={P['B']}, C={P['C']} give {g[0, keep_cf][:3].tolist()}..., "
                                 f"closed form combine(A,B)/|C| = {e!r}", expected=e)
         labels.append("closed-form")
 
